@@ -207,7 +207,12 @@ func replaceMembers(g orb.Geometry, s float64) {
 // where the clone's typed nil slices have become nil interfaces) skips the
 // kind and equality clauses and keeps the shared-memory ones.
 func checkClone(g0 orb.Geometry, cloner func(orb.Geometry) orb.Geometry, what string, aliasOnly bool) error {
-	orig := gen.DeepCopy(g0)
+	return checkCloneRaw(gen.DeepCopy(g0), cloner, what, aliasOnly)
+}
+
+// checkCloneRaw works on orig itself (and overwrites it): orig may contain
+// members that share memory with each other.
+func checkCloneRaw(orig orb.Geometry, cloner func(orb.Geometry) orb.Geometry, what string, aliasOnly bool) error {
 	so := snapshot(orig)
 	cl := cloner(orig)
 	if d := so.diff(orig); d != "" {
@@ -446,14 +451,26 @@ func typedEqual(a, b orb.Geometry) (eq bool, ok bool) {
 
 func checkPair(c PairCase) error {
 	gs := []orb.Geometry{c.A.V, c.B.V, c.C.V}
-	names := []string{"a", "b", "c"}
 	for _, g := range gs {
 		if g == nil {
 			return nil
 		}
 	}
-	var eq [3][3]bool
-	snaps := []snap{snapshot(gs[0]), snapshot(gs[1]), snapshot(gs[2])}
+	return checkRelation(gs, []string{"a", "b", "c"})
+}
+
+// checkRelation: on every ordered pair of gs (operands may share memory: the
+// expected answer looks at values only) orb.Equal and the typed Equal method
+// agree with the structural comparison; Equal modifies nothing and is
+// reflexive, symmetric and transitive on gs.
+func checkRelation(gs []orb.Geometry, names []string) error {
+	n := len(gs)
+	eq := make([][]bool, n)
+	snaps := make([]snap, n)
+	for i := range gs {
+		eq[i] = make([]bool, n)
+		snaps[i] = snapshot(gs[i])
+	}
 	for i := range gs {
 		for j := range gs {
 			eq[i][j] = orb.Equal(gs[i], gs[j])
@@ -464,7 +481,7 @@ func checkPair(c PairCase) error {
 					names[i], names[j], eq[i][j], want, snaps[i].sig, snaps[j].sig, why)
 			}
 			if te, ok := typedEqual(gs[i], gs[j]); ok && te != want {
-				return fmt.Errorf("%s.Equal(%s) (typed method of %s) = %v, structural comparison says %v", names[i], names[j], gen.KindOf(gs[i]), te, want)
+				return fmt.Errorf("%s.Equal(%s) (typed method of %s) = %v, structural comparison says %v (%s vs %s)", names[i], names[j], gen.KindOf(gs[i]), te, want, snaps[i].sig, snaps[j].sig)
 			}
 		}
 	}
@@ -1577,6 +1594,12 @@ func TestReplay(t *testing.T) {
 	}
 	var f func() error
 	switch {
+	case strings.Contains(name, "Alias"):
+		var c AliasCase
+		if err := json.Unmarshal(raw, &c); err != nil {
+			t.Fatal(err)
+		}
+		f = func() error { return checkAlias(c) }
 	case strings.Contains(name, "Pair") || strings.Contains(name, "Equal"):
 		var c PairCase
 		if err := json.Unmarshal(raw, &c); err != nil {
